@@ -13,7 +13,9 @@
 (* A run R = [input |-> kwterm, plan |-> [node -> Seq(outcome)],            *)
 (*            recreq |-> [node -> Int]   (recreq < 0: never asks to iterate),*)
 (*            recfalsy |-> [node -> BOOLEAN] (the payload of next_iteration   *)
-(*                          is the falsy value 0)]                            *)
+(*                          is the falsy value 0),                            *)
+(*            recnone |-> [node -> Seq(Nat)] (requests whose payload is None),*)
+(*            plan_it |-> [node -> Seq(plan)] (plan by epoch)]               *)
 (* outcome = <<"ok">> | <<"none">> | <<"falsy">> | <<"label", l>>          *)
 (*         | <<"raise", cls>>                                               *)
 (*                                                                         *)
@@ -53,7 +55,9 @@ Outcome(R, n, kw, k) ==
         req == R.recreq[n]
         it  == MaxDataKw(kw, n)
     IN  IF req >= 0 /\ o[1] = "ok" /\ it < req
-        THEN <<"rec", IF R.recfalsy[n] THEN <<"falsy">> ELSE <<"data", n, it + 1, kw>> >>
+        THEN <<"rec", IF R.recfalsy[n] THEN <<"falsy">>
+                      ELSE IF \E i \in 1..Len(R.recnone[n]) : R.recnone[n][i] = it + 1 THEN <<"none">>   \* next_iteration(None)
+                      ELSE <<"data", n, it + 1, kw>> >>
         ELSE o
 
 IsExc(cls) == cls \in {"E1", "E2", "E3"}
@@ -96,6 +100,14 @@ Empty == [inv |-> {}, must |-> {}, dfl |-> {}]
 WithR(res, acc) == [r |-> res, inv |-> acc.inv, must |-> acc.must, dfl |-> acc.dfl]
 Acc(e) == [inv |-> e.inv, must |-> e.must, dfl |-> e.dfl]
 NoMust(acc) == [inv |-> acc.inv, must |-> {}, dfl |-> acc.dfl]
+(* invocations of one iteration added to those of the earlier iterations: a node INSIDE the sub-graph that is invoked
+   with identical arguments in two iterations is invoked twice (counts add); a node outside it is invoked once *)
+AddBag(A, B, inside) ==
+    LET both(x, S) == {y \in S : y[1] = x[1] /\ y[2] = x[2]}
+    IN  {x \in A : x[1] \notin inside \/ both(x, B) = {}}
+        \cup {x \in B : x[1] \notin inside \/ both(x, A) = {}}
+        \cup {<<x[1], x[2], x[3] + (CHOOSE y \in both(x, B) : TRUE)[3]>> : x \in {z \in A : z[1] \in inside /\ both(z, B) # {}}}
+MergeRec(a, b, inside) == [inv |-> AddBag(a.inv, b.inv, inside), must |-> AddBag(a.must, b.must, inside), dfl |-> a.dfl \cup b.dfl]
 
 RECURSIVE EvalN(_, _, _, _, _), EvalParams(_, _, _, _, _, _), EvalParam(_, _, _, _, _),
           EvalOneOf(_, _, _, _, _, _, _), EvalRec(_, _, _, _, _, _, _)
@@ -163,10 +175,13 @@ EvalOneOf(P, R, rid, p, i, add, acc) ==
 (* k = number of re-iterations already made *)
 EvalRec(P, R, rid, p, k, add, acc) ==
     LET e   == EvalN(P, R, rid, p.node, add)
-        all == Merge(acc, Acc(e))
+        inside == {P.rec_members[p.node][i] : i \in 1..Len(P.rec_members[p.node])}
+        all == MergeRec(acc, Acc(e), inside)
     IN  IF e.r[1] # "R" THEN WithR(e.r, IF e.r[1] = "F" THEN NoMust(all) ELSE all)
         ELSE IF k < p.max
-             THEN EvalRec(P, R, rid, p, k + 1, (p.start :> e.r[2]) @@ add, all)
+             THEN EvalRec(P, R, rid, p, k + 1,
+                          IF e.r[2] = <<"none">> THEN [x \in DOMAIN add \ {p.start} |-> add[x]]     \* None: no additional_data
+                          ELSE (p.start :> e.r[2]) @@ add, all)
              ELSE LET nd == Node(P, p.node)
                       last == CHOOSE x \in e.inv : x[1] = p.node /\
                                    \A y \in e.inv : y[1] = p.node => MaxDataKw(y[2], p.node) <= MaxDataKw(x[2], p.node)
